@@ -110,7 +110,7 @@ impl Wallet {
 			.expect("commit")
 	}
 
-	fn secret(&mut self) -> SecretKey {
+	pub fn secret(&mut self) -> SecretKey {
 		loop {
 			let b = self.rng.bytes(32);
 			if let Ok(k) = SecretKey::from_slice(self.keychain.secp(), &b) {
@@ -160,6 +160,19 @@ impl Wallet {
 		out_keys: Option<Vec<Identifier>>,
 		features: KernelFeatures,
 	) -> (Transaction, Vec<OutInfo>) {
+		let (tx, outs, _) = self.build_tx_ex(inputs, out_values, out_keys, features, None);
+		(tx, outs)
+	}
+
+	/// As `build_tx`, optionally with a caller-chosen kernel excess key; returns the key used.
+	pub fn build_tx_ex(
+		&mut self,
+		inputs: &[OutInfo],
+		out_values: &[u64],
+		out_keys: Option<Vec<Identifier>>,
+		features: KernelFeatures,
+		excess_key: Option<SecretKey>,
+	) -> (Transaction, Vec<OutInfo>, SecretKey) {
 		let kc = self.keychain.clone();
 		let pb = ProofBuilder::new(&kc);
 		let mut elems = vec![];
@@ -186,15 +199,18 @@ impl Wallet {
 				height: 0,
 			});
 		}
-		let skey = self.secret();
+		let skey = match excess_key {
+			Some(k) => k,
+			None => self.secret(),
+		};
 		let nonce = self.secret();
 		let kernel = self.sign_kernel(features, &skey, &nonce);
-		let excess = BlindingFactor::from_secret_key(skey);
+		let excess = BlindingFactor::from_secret_key(skey.clone());
 		let tx = build::transaction_with_kernel(&elems, kernel, excess, &kc, &pb).expect("tx build");
 		for o in &outs {
 			self.known.insert(ckey(&o.commit), o.clone());
 		}
-		(tx, outs)
+		(tx, outs, skey)
 	}
 
 	pub fn sign_kernel(
@@ -246,6 +262,8 @@ pub struct WorldCfg {
 	pub free_difficulty: bool,
 	/// make the deepest branch overtake the trunk (reorg) with this percent probability
 	pub reorg_pct: u64,
+	/// bias spends and locks to sit exactly on the maturity / lock-height / NRD thresholds
+	pub boundary_bias: bool,
 }
 
 impl WorldCfg {
@@ -264,6 +282,7 @@ impl WorldCfg {
 			tx_pct: rng.range(40, 90),
 			free_difficulty: false,
 			reorg_pct: 50,
+			boundary_bias: false,
 		}
 	}
 }
@@ -280,6 +299,10 @@ pub struct World {
 	pub rng: SimRng,
 	pub opts: Options,
 	pub proof_ctr: u64,
+	/// excess keys of NRD kernels used so far (reused to create duplicate excesses)
+	pub nrd_keys: Vec<SecretKey>,
+	/// generation-time probes (boundary cases hit, kernel variants used, ...)
+	pub stats: BTreeMap<String, u64>,
 }
 
 pub fn header_time_plus(h: &BlockHeader, secs: i64) -> chrono::DateTime<chrono::Utc> {
@@ -325,6 +348,8 @@ impl World {
 			rng: rng.fork("world"),
 			opts,
 			proof_ctr: 0,
+			nrd_keys: vec![],
+			stats: BTreeMap::new(),
 		}
 	}
 
@@ -358,6 +383,12 @@ impl World {
 		let nrd_last = self.blocks[parent].nrd_last.clone();
 		let mut pool = World::spendable(&ledger, height);
 		self.rng.shuffle(&mut pool);
+		if self.cfg.boundary_bias {
+			// coinbases that matured exactly at this height go last (popped first)
+			let maturity = global::coinbase_maturity();
+			pool.sort_by_key(|o| (o.coinbase && o.height + maturity == height) as u8);
+		}
+		let mut nrd_used: Vec<CommitKey> = vec![];
 		let n_txs = self.rng.range(1, self.cfg.max_txs as u64) as usize;
 		// outputs created by earlier txs of this block, spendable by later ones (cut-through)
 		let mut fresh: Vec<OutInfo> = vec![];
@@ -375,6 +406,11 @@ impl World {
 			}
 			if ins.is_empty() {
 				break;
+			}
+			for i in &ins {
+				if i.coinbase && i.height + global::coinbase_maturity() == height {
+					*self.stats.entry("coinbase_spent_exactly_at_maturity".into()).or_insert(0) += 1;
+				}
 			}
 			let n_out = self.rng.range(1, 3) as usize;
 			let w = (n_in as i64) + 21 * (n_out as i64) + 3;
@@ -403,17 +439,53 @@ impl World {
 			let ff = FeeFields::new(0, fee).expect("fee");
 			let hv = consensus::header_version(height).0;
 			let mut features = KernelFeatures::Plain { fee: ff };
+			let mut excess_key: Option<SecretKey> = None;
 			let k = self.rng.below(10);
 			if k < 2 {
 				// lock height at or below this block's height
-				let lh = self.rng.range(0, height);
+				let lh = if self.cfg.boundary_bias && self.rng.chance(1, 2) {
+					height
+				} else {
+					self.rng.range(0, height)
+				};
 				features = KernelFeatures::HeightLocked {
 					fee: ff,
 					lock_height: lh,
 				};
 				note.push_str(&format!("hl{} ", lh));
-			} else if k < 4 && self.cfg.nrd && hv >= 4 {
-				let rh = self.rng.range(1, 4);
+				if lh == height {
+					*self.stats.entry("lock_height_equals_height".into()).or_insert(0) += 1;
+				}
+			} else if k < 5 && self.cfg.nrd && hv >= 4 {
+				// NRD kernel; half of the time reuse an earlier excess at a legal distance
+				let mut rh = self.rng.range(1, 4);
+				if !self.nrd_keys.is_empty() && self.rng.chance(1, 2) {
+					let key = self.rng.pick(&self.nrd_keys).clone();
+					let ex = ckey(&self.wallet.keychain.secp().commit(0, key.clone()).expect("commit"));
+					if !nrd_used.contains(&ex) {
+						let ok = match nrd_last.get(&ex) {
+							Some(p) => {
+								let dist = height - *p;
+								if dist >= 1 {
+									rh = if self.rng.chance(2, 3) { dist } else { self.rng.range(1, dist) };
+									rh = rh.min(1440);
+									if rh == dist {
+										*self.stats.entry("nrd_duplicate_exactly_at_relative_height".into()).or_insert(0) += 1;
+									}
+									true
+								} else {
+									false
+								}
+							}
+							None => true,
+						};
+						if ok {
+							excess_key = Some(key);
+							nrd_used.push(ex);
+							note.push_str("dup-");
+						}
+					}
+				}
 				features = KernelFeatures::NoRecentDuplicate {
 					fee: ff,
 					relative_height: NRDRelativeHeight::new(rh).expect("rh"),
@@ -439,8 +511,17 @@ impl World {
 					note.push_str("recreate ");
 				}
 			}
-			let _ = &nrd_last;
-			let (tx, outs) = self.wallet.build_tx(&ins, &vals, out_keys, features);
+			let is_nrd = matches!(features, KernelFeatures::NoRecentDuplicate { .. });
+			let (tx, outs, used_key) = self.wallet.build_tx_ex(&ins, &vals, out_keys, features, excess_key);
+			if is_nrd {
+				let ex = ckey(&tx.kernels()[0].excess);
+				if !nrd_used.contains(&ex) {
+					nrd_used.push(ex);
+				}
+				if !self.nrd_keys.iter().any(|k| k == &used_key) {
+					self.nrd_keys.push(used_key);
+				}
+			}
 			note.push_str(&format!("tx{}i{}o ", ins.len(), outs.len()));
 			for o in outs {
 				fresh.push(o);
@@ -474,6 +555,21 @@ impl World {
 		out: Output,
 		kern: TxKernel,
 	) -> Result<Block, String> {
+		let (mut b, diff) = self.pre_block(parent, txs, dt_secs, free_diff, out, kern)?;
+		self.root_and_mine(&mut b, diff, true)?;
+		Ok(b)
+	}
+
+	/// Block with header fields set except roots/sizes and PoW.
+	pub fn pre_block(
+		&mut self,
+		parent: usize,
+		txs: &[Transaction],
+		dt_secs: i64,
+		free_diff: Option<u64>,
+		out: Output,
+		kern: TxKernel,
+	) -> Result<(Block, Difficulty), String> {
 		let prev = self.blocks[parent].block.header.clone();
 		let info = self.next_difficulty(&prev);
 		let diff = match free_diff {
@@ -484,12 +580,30 @@ impl World {
 			.map_err(|e| format!("from_reward: {:?}", e))?;
 		b.header.timestamp = header_time_plus(&prev, dt_secs);
 		b.header.pow.secondary_scaling = info.secondary_scaling;
-		self.builder
-			.chain()
-			.set_txhashset_roots(&mut b)
-			.map_err(|e| format!("set_txhashset_roots: {:?}", e))?;
-		self.mine(&mut b, diff);
-		Ok(b)
+		Ok((b, diff))
+	}
+
+	/// Set roots/sizes from the builder node's state at the parent, then solve PoW.
+	/// With `must_root == false` a failure to apply the block (e.g. a double spend) leaves the
+	/// roots as they are.
+	pub fn root_and_mine(&mut self, b: &mut Block, diff: Difficulty, must_root: bool) -> Result<(), String> {
+		match self.builder.chain().set_txhashset_roots(b) {
+			Ok(()) => {}
+			Err(e) => {
+				if must_root {
+					return Err(format!("set_txhashset_roots: {:?}", e));
+				}
+				// keep plausible sizes so the header passes its own checks
+				let prev = self.builder.chain().get_block_header(&b.header.prev_hash).map_err(|e| format!("{:?}", e))?;
+				let n_out = b.outputs().len() as u64;
+				let n_ker = b.kernels().len() as u64;
+				b.header.output_mmr_size = grin_core::core::pmmr::insertion_to_pmmr_index(prev.output_mmr_count() + n_out);
+				b.header.kernel_mmr_size = grin_core::core::pmmr::insertion_to_pmmr_index(prev.kernel_mmr_count() + n_ker);
+				let _ = self.builder.chain().set_prev_root_only(&mut b.header);
+			}
+		}
+		self.mine(b, diff);
+		Ok(())
 	}
 
 	pub fn next_difficulty(&self, prev: &BlockHeader) -> consensus::HeaderDifficultyInfo {
